@@ -150,6 +150,28 @@ func c05before(c *Ctx, a, b gdate) {
 				bit(b2)+bit(a2), bit(bef)+bit(aft)+" (both flags false)")
 		}
 	}
+	// neither may the constraint words: before/after is the order of the periods, and a date is
+	// never both before and after another, nor after (or before) a date of the same period
+	for k := 1; k < 16; k += 1 + (a.d+b.d+a.m)%3 {
+		xa, xb := da, db
+		xa.Constraint, xb.Constraint = gedcom.DateConstraint(k%4), gedcom.DateConstraint(k/4)
+		if b2, a2 := xa.IsBefore(xb), xa.IsAfter(xb); b2 != bef || a2 != aft {
+			c.Oracle("", "IsBefore/IsAfter depend on the constraint words (Abt./Bef./Aft.) of the operands",
+				map[string]interface{}{"a": a.String(), "b": b.String(), "a_constraint": k % 4, "b_constraint": k / 4},
+				bit(b2)+bit(a2), bit(bef)+bit(aft)+" (both exact)")
+			break
+		}
+	}
+	if bef && aft {
+		c.Oracle("", "a date is both before and after another", map[string]string{"a": a.String(), "b": b.String()}, "11", "at most one")
+	}
+	if a == b && (bef || aft) {
+		c.Oracle("", "a date is before or after itself", map[string]string{"a": a.String()}, bit(bef)+bit(aft), "00")
+	}
+	if ya, yb := da.Years(), db.Years(); bef != (ya < yb) || aft != (ya > yb) {
+		c.Oracle("", "IsBefore/IsAfter disagree with the order of Years()", map[string]string{"a": a.String(), "b": b.String()},
+			bit(bef)+bit(aft), bit(ya < yb)+bit(ya > yb))
+	}
 	tag := ""
 	if gran(a) == gran(b) {
 		tag = " same"
